@@ -78,7 +78,7 @@ package types
 //   the orbiter account and lets it gain nothing else.
 //@   requires[C01] bankNonneg(bank)
 //@   ensures[C01] err == nil ==> bankNonneg(bank)
-//@   ensures[C01] err == nil ==> bal(bank, orb(), packet.TransferAttributes.destinationCoin.Denom) == bal(old(bank), orb(), packet.TransferAttributes.destinationCoin.Denom) - val(packet.TransferAttributes.destinationCoin.Amount)
+//@   ensures[C01,C11] err == nil ==> bal(bank, orb(), packet.TransferAttributes.destinationCoin.Denom) == bal(old(bank), orb(), packet.TransferAttributes.destinationCoin.Denom) - val(packet.TransferAttributes.destinationCoin.Amount)
 //@   ensures[C01] err == nil ==> orbNoGainExcept(packet.TransferAttributes.destinationCoin.Denom)
 //@   ensures[C02,C11] err == nil ==> fwdEffect(packet)
 
@@ -113,7 +113,7 @@ package types
 //@   implementers forwarder.Forwarder
 //@   requires[C01] bankNonneg(bank)
 //@   ensures[C01] err == nil ==> bankNonneg(bank)
-//@   ensures[C01] err == nil ==> bal(bank, orb(), packet.TransferAttributes.destinationCoin.Denom) == 0
+//@   ensures[C01,C11] err == nil ==> bal(bank, orb(), packet.TransferAttributes.destinationCoin.Denom) == 0
 //@   ensures[C01] err == nil ==> orbNoGainExcept(packet.TransferAttributes.destinationCoin.Denom)
 //   C02/C11: the forwarder lets a controller run only when the orbiter holds exactly the running amount
 //@   ensures[C02,C11] err == nil ==> fwdEffect(packet) && bal(old(bank), orb(), dcoin(packet).Denom) == val(dcoin(packet).Amount)
@@ -165,6 +165,8 @@ package types
 //@   ensures[C01] err == nil ==> bankNonneg(bank)
 //@   ensures[C18] len(packet.Payload.Forwarding.PassthroughPayload) > adapterLimit(self) ==> err != nil
 //@   ensures[C18] len(packet.Payload.Forwarding.PassthroughPayload) <= adapterLimit(self) && bal(old(bank), core.ModuleAddress, opDenom(packet)) == 0 ==> err == nil
+//   C11: whatever the orbiter account holds, the sweep does not fail (a module account can always send what it holds)
+//@   ensures[C11] len(packet.Payload.Forwarding.PassthroughPayload) <= adapterLimit(self) ==> err == nil
 //@   ensures[C01,C02,C11] err == nil ==> bank == moveIf(bal(old(bank), core.ModuleAddress, opDenom(packet)) > 0, old(bank), core.ModuleAddress, dustAddr(), opDenom(packet), bal(old(bank), core.ModuleAddress, opDenom(packet)))
 //@   ensures[C03,C07,C18] err != nil ==> bank == old(bank)
 
@@ -176,9 +178,10 @@ package types
 //@   requires[base] packet != nil && packet.TransferAttributes != nil && taOK(packet.TransferAttributes) && packet.Payload != nil && payloadOK(packet.Payload)
 //@   modifies ghosts, packet.TransferAttributes.destinationCoin
 //@   requires[C01] bankNonneg(bank)
-//@   ensures[C01] err == nil ==> bal(bank, core.ModuleAddress, old(opDenom(packet))) == 0
+//@   ensures[C01,C11] err == nil ==> bal(bank, core.ModuleAddress, old(opDenom(packet))) == 0
 //@   ensures[C01] err == nil ==> forall d string :: d != old(opDenom(packet)) ==> bal(bank, core.ModuleAddress, d) <= bal(old(bank), core.ModuleAddress, d)
 //@   ensures[C02,C11] err == nil ==> dispatchEffect(old(bank), val(old(packet.TransferAttributes.destinationCoin.Amount)), old(opDenom(packet)), packet.Payload)
+//@   ensures[C02,C11] err == nil ==> opDenom(packet) == old(opDenom(packet)) && val(packet.TransferAttributes.destinationCoin.Amount) == plOut(val(old(packet.TransferAttributes.destinationCoin.Amount)), packet.Payload)
 //@   ensures[base] wrapped_n == old(wrapped_n) && wrapped_ret == old(wrapped_ret) && hook_n == old(hook_n) && hook_failed == old(hook_failed) && adapt_err == old(adapt_err) && adapt_op == old(adapt_op) && wrapped_bank == old(wrapped_bank) && wrapped_bank0 == old(wrapped_bank0)
 
 // The adapter controller behind the adapter's router (implemented by the IBC adapter).
@@ -204,7 +207,8 @@ package types
 //@   requires[base] transferAttr != nil && taOK(transferAttr)
 //@   modifies ghosts, transferAttr.destinationCoin
 //@   requires[C01] bankNonneg(bank)
-//@   ensures[C01] err == nil ==> bal(bank, core.ModuleAddress, old(transferAttr.destinationCoin.Denom)) == 0
+//@   ensures[C01,C11] err == nil ==> bal(bank, core.ModuleAddress, old(transferAttr.destinationCoin.Denom)) == 0
 //@   ensures[C01] err == nil ==> forall d string :: d != old(transferAttr.destinationCoin.Denom) ==> bal(bank, core.ModuleAddress, d) <= bal(old(bank), core.ModuleAddress, d)
 //@   ensures[C02,C11] err == nil ==> payloadOK(payload) && dispatchEffect(old(bank), val(old(transferAttr.destinationCoin.Amount)), old(transferAttr.destinationCoin.Denom), payload)
+//@   ensures[C02,C11] err == nil ==> transferAttr.destinationCoin.Denom == old(transferAttr.destinationCoin.Denom) && val(transferAttr.destinationCoin.Amount) == plOut(val(old(transferAttr.destinationCoin.Amount)), payload)
 //@   ensures[base] wrapped_n == old(wrapped_n) && wrapped_ret == old(wrapped_ret) && hook_n == old(hook_n) && hook_failed == old(hook_failed) && adapt_err == old(adapt_err) && adapt_op == old(adapt_op) && wrapped_bank == old(wrapped_bank) && wrapped_bank0 == old(wrapped_bank0)
